@@ -167,12 +167,21 @@ where
     let content = match (expected_content_type, body_content_type) {
         (Json, Json) => {
             let jd = &mut serde_json::Deserializer::from_slice(&body);
-            serde_path_to_error::deserialize(jd).map_err(|e| {
+            let content =
+                serde_path_to_error::deserialize(&mut *jd).map_err(|e| {
+                    HttpError::for_bad_request(
+                        None,
+                        format!("unable to parse JSON body: {}", e),
+                    )
+                })?;
+            // The body must be one JSON document and nothing else.
+            jd.end().map_err(|e| {
                 HttpError::for_bad_request(
                     None,
                     format!("unable to parse JSON body: {}", e),
                 )
-            })?
+            })?;
+            content
         }
         (UrlEncoded, UrlEncoded) => {
             let ud = serde_urlencoded::Deserializer::new(
